@@ -64,7 +64,8 @@ Requested(b) == {a \in Actions : Has(b, ReqFlag(a))}
 Occurred(id) ==
   LET h == hist[id] IN
   {"received"}
-  \cup (IF h.act = "deliver" /\ ~h.secbad /\ ~h.b.isfrag THEN {"delivered"} ELSE {})
+  \* (a fragment is delivered as part of the bundle re-assembled from it)
+  \cup (IF h.act = "deliver" /\ ~h.secbad /\ (~h.b.isfrag \/ ConsumedOf(h.b.base) # {}) THEN {"delivered"} ELSE {})
   \cup (IF \E i \in DOMAIN outs : outs[i].b.base = h.b.base THEN {"forwarded"} ELSE {})
   \cup (IF h.act = "delete" \/ h.secbad \/ (h.act = "forward" /\ h.mtu = -2) \/ h.hoplimit THEN {"deleted"} ELSE {})
 
@@ -210,6 +211,11 @@ FinalClauses ==
           (b.rpt # "dtn:none" /\ h.rptroute /\ h.act \in {"deliver", "forward", "delete"} /\ ~(b.isfrag /\ h.act = "deliver"))
              => \A a \in (Requested(b) \cap Occurred(id)) :
                    \E i \in ReportsOf(b.base) : a \in ToSet(reports[i].asserted)),
+      \* a bundle that arrived as fragments and was re-assembled and delivered here is a delivered bundle
+      C({"C19"}, "ReassembledDeliveryIsReported",
+          (b.isfrag /\ h.act = "deliver" /\ b.off = 0 /\ Has(b, "DLVREP") /\ b.rpt # "dtn:none" /\ h.rptroute
+             /\ b.base \in DOMAIN cov /\ cov[b.base] = 0..(b.total - 1) /\ ConsumedOf(b.base) # {})
+             => \E i \in ReportsOf(b.base) : "delivered" \in ToSet(reports[i].asserted)),
       C({"C19"}, "NoReportWithoutRequest",
           (b.rpt = "dtn:none" \/ Requested(b) = {}) => ReportsOf(b.base) = {}),
       C({"C19"}, "ForwardedNeverAlsoReportedDeleted",
